@@ -7,9 +7,13 @@ lines (TAB separated; <pat>/<old>/<new> may be '@' = the searched object itself;
   C07 split       <cls> <data> <pat> <start> <end> <ba> <oba> <count>    -> ok [] | ok chunk,chunk,.. | err ValueError
   C07 in          <cls> <data> <pat> <oba>                               -> ok True|False | err ValueError
   C07 startswith|endswith <cls> <data> <pat> <start> <end>               -> ok True|False | err ValueError
-  C07 count       <cls> <data> <True|False>                              -> ok <n>
+  C07 count       <cls> <data> <value token, see COUNT_VALUES>           -> ok <n>      (count by truthiness of value)
   C07 cut         <cls> <data> <bits> <start> <end> <count>              -> ok [] | ok chunk,.. | err ValueError
   C07 replace     <cls> <data> <old> <new> <start> <end> <ba> <oba> <count> -> ok <n> <bits after> | err ValueError
+  generator-returning operations, option changed between the call and the consumption of the iterator
+  (<oba> = options.bytealigned at the call, <oba2> = while the iterator is consumed; the value at the call decides):
+  C07 findall_sched|split_sched <cls> <data> <pat> <start> <end> <ba> <oba> <count> <oba2>
+  C07 cut_sched   <cls> <data> <bits> <start> <end> <count> <oba> <oba2>
 """
 from harness.common import *
 import itertools, signal
@@ -37,6 +41,18 @@ OPS8 = ("find", "rfind")
 OPS9 = ("findall", "split")
 
 
+# count(value): the value on the wire, how it is built, and its Python truth value (written by hand; the model
+# receives only that truth value, the oracle uses bool() of the real object and the two are compared at import).
+COUNT_VALUES = {
+    "0": (lambda: 0, False), "1": (lambda: 1, True), "True": (lambda: True, True), "False": (lambda: False, False),
+    "None": (lambda: None, False), "2": (lambda: 2, True), "-1": (lambda: -1, True), "0.0": (lambda: 0.0, False),
+    "1.5": (lambda: 1.5, True), "''": (lambda: "", False), "'1'": (lambda: "1", True), "[]": (lambda: [], False),
+    "[0]": (lambda: [0], True), "Bits1": (lambda: Bits("0b1"), True), "Bits0": (lambda: Bits(), False),
+}
+assert all(bool(mkv()) is t for mkv, t in COUNT_VALUES.values())
+COUNT_TOKENS = list(COUNT_VALUES)
+
+
 def _opt(s):
     return None if s == "None" else int(s)
 
@@ -52,12 +68,14 @@ def _resolve(field, data):
 def model_line(line):
     f = line.split(SEP)
     op = f[1]
-    if op in OPS8 + OPS9 + ("in", "startswith", "endswith") and f[4] == "@":
+    if op in OPS8 + OPS9 + ("in", "startswith", "endswith", "findall_sched", "split_sched") and f[4] == "@":
         f[4] = f[3]
     if op == "replace":
         for i in (4, 5):
             if f[i] == "@":
                 f[i] = f[3]
+    if op == "count":
+        f[4] = "True" if COUNT_VALUES[f[4]][1] else "False"
     return SEP.join(f)
 
 
@@ -103,6 +121,23 @@ def _take(gen, data):
     return l if len(l) < lim else "endless"
 
 
+def _sched(make, data, fmt, call_opt, consume_opt):
+    """Call `make()` (which returns the iterator) with options.bytealigned = call_opt, then consume the iterator with
+    options.bytealigned = consume_opt.  The property fixes the result by the setting AT THE CALL."""
+    o = bitstring.options
+    saved = o.bytealigned
+    try:
+        o.bytealigned = call_opt
+
+        def th():
+            it = make()
+            o.bytealigned = consume_opt
+            return _take(it, data)
+        return guarded(th, fmt)
+    finally:
+        o.bytealigned = saved
+
+
 def _operand(field, s):
     return s if field == "@" else Bits(bin=unwire(field)) if unwire(field) else Bits()
 
@@ -120,9 +155,44 @@ def execute(line):
         signal.signal(signal.SIGALRM, old)
 
 
+def _plain(line):
+    """The ordinary line a *_sched line is a schedule of (option = its value at the call)."""
+    f = line.split(SEP)
+    if f[1] in ("findall_sched", "split_sched"):
+        return SEP.join([f[0], f[1][:-6]] + f[2:10])
+    if f[1] == "cut_sched":
+        return SEP.join([f[0], "cut"] + f[2:8])
+    return line
+
+
+def _execute_sched(line):
+    f = line.split(SEP)
+    op, cls, data = f[1], f[2], unwire(f[3])
+    s = mk(cls, data)
+    extra = {}
+    if op == "cut_sched":
+        n, a, b, c = int(f[4]), _opt(f[5]), _opt(f[6]), _opt(f[7])
+        call_opt, consume_opt = f[8] == "True", f[9] == "True"
+        out = _sched(lambda: s.cut(n, a, b, c), data, _fmt_chunks, call_opt, consume_opt)
+    else:
+        p = _operand(f[4], s)
+        a, b, ba, c = _opt(f[5]), _opt(f[6]), _ob(f[7]), _opt(f[9])
+        call_opt, consume_opt = f[8] == "True", f[10] == "True"
+        if op == "findall_sched":
+            out = _sched(lambda: s.findall(p, a, b, c, ba), data, _fmt_nats, call_opt, consume_opt)
+        else:
+            out = _sched(lambda: s.split(p, a, b, c, ba), data, _fmt_chunks, call_opt, consume_opt)
+        extra["pat_after"] = wire(p)
+    extra["data_after"] = wire(s)
+    return out, extra
+
+
 def _execute(line):
     f = line.split(SEP)
     op, cls, data = f[1], f[2], unwire(f[3])
+    if op.endswith("_sched"):
+        with options(bytealigned=False):
+            return _execute_sched(line)
     oba = False
     if op in OPS8 + OPS9:
         oba = f[8] == "True"
@@ -163,7 +233,7 @@ def _execute(line):
             out = guarded(lambda: fn(p, a, b), _fmt_bool)
             extra["pat_after"] = wire(p)
         elif op == "count":
-            v = f[4] == "True"
+            v = COUNT_VALUES[f[4]][0]()
             out = guarded(lambda: s.count(v), lambda n: str(n) if type(n) is int else "bad:" + repr(n))
             extra["again"] = guarded(lambda: s.count(1 if v else 0), str)
         elif op == "cut":
@@ -250,7 +320,8 @@ def expected(line):
         p = w[0] if op == "startswith" else w[1] - len(pat)
         return "ok " + str(p in occ)
     if op == "count":
-        return "ok " + str(sum(1 for c in data if c == ("1" if f[4] == "True" else "0")))
+        value = COUNT_VALUES[f[4]][0]()
+        return "ok " + str(data.count("1" if value else "0"))
     if op == "cut":
         k = int(f[4])
         w = _window(n, _opt(f[5]), _opt(f[6]))
@@ -283,7 +354,8 @@ def expected(line):
 
 
 def oracle(line, out, extra):
-    exp = expected(line)
+    # a *_sched line must give what the ordinary call gives under the option value of the call
+    exp = expected(_plain(line))
     if exp is None:
         return "unknown op"
     if out != exp:
@@ -307,7 +379,7 @@ def nontrivial(line):
     f = line.split(SEP)
     if f[3] == "-":
         return False
-    return f[1] in ("count", "cut") or f[4] != "-"
+    return f[1] in ("count", "cut", "cut_sched") or f[4] != "-"
 
 
 # ---- generators ---------------------------------------------------------------------------------------
@@ -418,6 +490,22 @@ def _one(rng, op, cls, data, pat, a, b, ba, oba, c):
 
 
 def gen(rng, tier):
+    """Every line of `_gen`; a findall / split / cut line is also run with options.bytealigned changed between the call
+    and the consumption of the iterator (always when the bytealigned default is used, sometimes when it is explicit),
+    in both directions."""
+    for l in _gen(rng, tier):
+        yield l
+        f = l.split(SEP)
+        if f[1] in OPS9 and (f[7] == "None" or rng.random() < 0.15):
+            flip = "False" if f[8] == "True" else "True"
+            yield SEP.join([f[0], f[1] + "_sched"] + f[2:10] + [flip])                       # set, call, flip, consume
+            yield SEP.join([f[0], f[1] + "_sched"] + f[2:8] + [flip, f[9], f[8]])             # the reverse
+        elif f[1] == "cut" and rng.random() < 0.2:
+            a = rng.choice(OBA)
+            yield SEP.join([f[0], "cut_sched"] + f[2:8] + [a, "False" if a == "True" else "True"])
+
+
+def _gen(rng, tier):
     big = tier != "quick"
     # 1. every (start, end) in {None} ∪ [-(n+2), n+2]² for small lengths
     L = 10 if big else 8
@@ -481,6 +569,23 @@ def gen(rng, tier):
                             yield _one(rng, op, cls, data, "@", a, b, ba, oba, c)
                         if rng.random() < 0.5 and n:
                             yield _one(rng, op, cls, data, data[: rng.randint(1, n)], a, b, ba, oba, c)
+    # 4b. count(value) counts by truthiness: every kind of value x every class x a few contents
+    for data in ["", "1", "0", "10110", "0" * 17, "1" * 9, rand_bits(rng, 40), rand_bits(rng, 65)]:
+        for cls in CLASS_NAMES:
+            for tok in COUNT_TOKENS:
+                yield _line("count", cls, data, tok)
+    # 4c. generator-returning operations with the bytealigned default: aligned and unaligned occurrences both present,
+    #     so that the option value at the call (and not the one while consuming) decides the result
+    for _ in range(600 if big else 150):
+        byte = rand_bits(rng, 8)
+        k = rng.randint(2, 6)
+        data = "".join(rng.choice([byte, rand_bits(rng, 8)]) for _ in range(k))
+        data = rand_bits(rng, rng.choice([1, 3, 4, 7])) + data + byte + rand_bits(rng, rng.randint(0, 9))
+        data = _plant(rng, data, byte, [8 * rng.randrange(0, len(data) // 8)])
+        a, b = rng.choice([(None, None), (None, None), (1, None), (None, -1), (rng.randint(0, 8), None)])
+        for oba in OBA:
+            yield _line("findall", rng.choice(CLASS_NAMES), data, byte, a, b, "None", oba, _count(rng))
+            yield _line("split", rng.choice(CLASS_NAMES), data, byte, a, b, "None", oba, _count(rng))
     # 5. structured random
     N = 400000 if big else 24000
     lens = list(range(0, 41)) + [7, 8, 9, 15, 16, 17, 23, 24, 25, 31, 32, 33, 39, 40] * 2
@@ -502,7 +607,7 @@ def gen(rng, tier):
         if op == "cut":
             yield _line("cut", cls, data, None, a, b, c=_count(rng), bits=max(1, rng.choice([1, 2, 3, 7, 8, 9, n, n + 1, n - 1, rng.randint(1, n + 2)])))
         elif op == "count":
-            yield _line("count", cls, data, rng.choice(["True", "False"]))
+            yield _line("count", cls, data, rng.choice(COUNT_TOKENS))
         else:
             p = "@" if rng.random() < 0.01 else pat
             yield _one(rng, op, cls, data, p, a, b, rng.choice(BA), rng.choice(OBA), _count(rng))
